@@ -44,7 +44,8 @@ EXPECTED_PROBES = ["probe_frame_fragmented", "probe_frames_coalesced", "probe_un
                    "probe_same_text_after_remote_set", "probe_unencodable_request_in_burst", "probe_equal_text_of_different_kinds",
                    "probe_second_connection_reads_during_a_call", "probe_answer_is_a_snapshot_while_another_connection_amends_the_value", "probe_set_returned_then_read_through_another_connection", "probe_multi_line_programs_from_two_connections", "probe_response_above_16MiB",
                    "probe_remote_definition_of_a_function_used_locally_first", "probe_chain_backend", "probe_unbound_symbol", "net_stall",
-                   "probe_client_connects_during_a_call", "probe_server_calls_client", "probe_second_handle_by_address_closed"]
+                   "probe_client_connects_during_a_call", "probe_server_calls_client", "probe_second_handle_by_address_closed",
+                   "probe_handle_form_1", "probe_handle_form_2", "probe_handle_form_3", "probe_handle_form_4", "probe_handle_form_5"]
 WALL_CAP = {"quick": 400, "thorough": 3600}
 EXHAUSTIVE_NOTE = "configuration 'cuts' enumerates every (a<=b) split of the concatenated frames into three reads exhaustively for each generated case"
 
@@ -215,7 +216,30 @@ def scenario(ch, cfg):
             viol(f"C13:reverse:value-mismatch:{kind}", f"server calling the client: {what[:120]} gave {str(got)[:160]}; the same operation on the client interpreter gives {str(want)[:160]}")
 
     def run_ops():
-        cl(f"f::.cli({PORT})")
+        # every documented way of getting the function handle f (and the dictionary handle d): by port, by "host:port",
+        # from the other kind of handle of the same connection, from a handle of the same kind (identity)
+        hf = ch.draw(6, "handle-form")
+        stats[f"probe_handle_form_{hf}"] += 1
+        if hf == 0:
+            cl(f"f::.cli({PORT})")
+        elif hf == 1:
+            cl(f'f::.cli("localhost:{PORT}")')
+        elif hf == 2:
+            cl(f"d::.clid({PORT})")
+            cl("f::.cli(d)")
+            state["dict"] = True
+        elif hf == 3:
+            cl(f'd::.clid("localhost:{PORT}")')
+            cl("f::.cli(d)")
+            state["dict"] = True
+        elif hf == 4:
+            cl(f"f0::.cli({PORT})")
+            cl("f::.cli(f0)")
+        else:
+            cl(f"f::.cli({PORT})")
+            cl("d0::.clid(f)")
+            cl("d::.clid(d0)")
+            state["dict"] = True
         for i in range(nops):
             last = i == nops - 1
             k = ch.weighted([6, 4, 4, 4, 2, 2, 2, 2, 2, 1 if last else 0, 2, 1, 1, 1, 2, 1, 1, 1, 1], "op")
